@@ -14,8 +14,16 @@ pub(super) fn is_seq_c_tag(tag: &str) -> bool {
 
 pub(super) fn split_top<'a>(v: &RView<'a>) -> (Fs<'a>, Fs<'a>) {
     let top = v.top();
-    let a = top.iter().filter(|f| !is_seq_c_tag(&f.tag)).copied().collect();
-    let c = top.iter().filter(|f| is_seq_c_tag(&f.tag)).copied().collect();
+    let a = top
+        .iter()
+        .filter(|f| !is_seq_c_tag(&f.tag))
+        .copied()
+        .collect();
+    let c = top
+        .iter()
+        .filter(|f| is_seq_c_tag(&f.tag))
+        .copied()
+        .collect();
     (a, c)
 }
 
@@ -70,7 +78,10 @@ pub fn expected(v: &RView) -> Expect {
     }
     // C2 (C76): creditor 50a A/K either in A or in every B; never both, never neither
     let cred_a = has(&a, "50[AK]");
-    e.must_if((cred_a && any_b("50[AK]")) || (!cred_a && !all_b("50[AK]")), "C76");
+    e.must_if(
+        (cred_a && any_b("50[AK]")) || (!cred_a && !all_b("50[AK]")),
+        "C76",
+    );
     // C3 (D73): 21E, 26T, 52a, 71A, 77B, 50a C/L: in A or in B occurrences, not both
     for pat in ["21E", "26T", "52*", "71A", "77B", "50[CL]"] {
         e.must_if(has(&a, pat) && any_b(pat), "D73");
@@ -104,7 +115,10 @@ pub fn expected(v: &RView) -> Expect {
         }
     }
     // C9 (D80), C10 (C01)
-    let b_amounts: Vec<DecStr> = bs.iter().filter_map(|b| get(b, "32B").and_then(amount_of)).collect();
+    let b_amounts: Vec<DecStr> = bs
+        .iter()
+        .filter_map(|b| get(b, "32B").and_then(amount_of))
+        .collect();
     let total = sum(&b_amounts);
     if let Some(s) = c_32b {
         if let Some(sa) = amount_of(s) {
@@ -184,21 +198,37 @@ pub fn content_hook(tag: &str, src: &mut crate::choice::Src) -> Option<String> {
         "32B" | "33B" => {
             if src.chance(1, 12) {
                 // a three-decimal currency: amounts that differ by less than one hundredth
-                return Some(format!("KWD{}", src.pick(&["100,", "100,001", "100,005", "100,"])));
+                return Some(format!(
+                    "KWD{}",
+                    src.pick(&["100,", "100,001", "100,005", "100,"])
+                ));
             }
             let c = *src.pick(&["USD", "USD", "USD", "USD", "USD", "EUR"]);
-            let a = *src.pick(&["100,", "100,", "100,", "200,", "300,", "200,01", "199,99", "50,", "100,00"]);
+            let a = *src.pick(&[
+                "100,", "100,", "100,", "200,", "300,", "200,01", "199,99", "50,", "100,00",
+            ]);
             Some(format!("{c}{a}"))
         }
-        "19" => Some(src.pick(&["100,", "200,", "300,", "200,01", "199,99", "400,", "299,99", "150,"]).to_string()),
+        "19" => Some(
+            src.pick(&[
+                "100,", "200,", "300,", "200,01", "199,99", "400,", "299,99", "150,",
+            ])
+            .to_string(),
+        ),
         "71F" | "71G" => {
             let c = *src.pick(&["USD", "USD", "USD", "EUR"]);
             let a = *src.pick(&["1,", "2,50", "10,"]);
             Some(format!("{c}{a}"))
         }
         "23E" => {
-            let c = *src.pick(&["AUTH", "NAUT", "OTHR", "RFDD", "RFDD", "RTND", "RTND", "ZZZZ"]);
-            if src.chance(1, 4) { Some(format!("{c}/INFO")) } else { Some(c.to_string()) }
+            let c = *src.pick(&[
+                "AUTH", "NAUT", "OTHR", "RFDD", "RFDD", "RTND", "RTND", "ZZZZ",
+            ]);
+            if src.chance(1, 4) {
+                Some(format!("{c}/INFO"))
+            } else {
+                Some(c.to_string())
+            }
         }
         _ => None,
     }
